@@ -439,7 +439,8 @@ impl Property for C19 {
             });
             found
         };
-        if case.lit_args && (case.profile == 0 || !stream_last_instr) && h.quiescent && !h.inconclusive {
+        // a particle addressed to a string that is not a peer of the simulation is dropped: not a delivered history
+        if case.lit_args && (case.profile == 0 || !stream_last_instr) && h.quiescent && !h.inconclusive && h.dropped == 0 {
             if case.profile != 0 {
                 rep.classes.push("quiescent_stream_script_checked".into());
             }
